@@ -553,3 +553,26 @@ func (w *World) appDeclLines() string {
 	}
 	return sb.String()
 }
+
+// AllModuleFuncs lists every function with a body that belongs to the module.
+func (w *World) AllModuleFuncs() []*ssa.Function {
+	var out []*ssa.Function
+	for fn := range ssautil.AllFunctions(w.Prog) {
+		pkg := fn.Pkg
+		if pkg == nil && fn.Origin() != nil {
+			pkg = fn.Origin().Pkg
+		}
+		if pkg == nil || !strings.HasPrefix(pkg.Pkg.Path(), modulePrefix) || fn.Blocks == nil {
+			continue
+		}
+		if fn.TypeParams().Len() > 0 && len(fn.TypeArgs()) == 0 {
+			continue
+		}
+		if fn.Synthetic != "" && !strings.Contains(fn.Synthetic, "instance of") {
+			continue
+		}
+		out = append(out, fn)
+	}
+	sort.Slice(out, func(i, j int) bool { return fnDisplay(out[i]) < fnDisplay(out[j]) })
+	return out
+}
